@@ -41,7 +41,7 @@ vandermonde = Fn(U + 'vandermonde', ret='vm', level='L0', attrs=['#[verifier::lo
                             'body_ghost': 'let ghost pre_vm = vm@;',
                             'body_end': ('assert forall|r: int, ii: int| 0 <= r < it.index@ && 0 <= ii < n implies #[trigger] at2(vm@, n as int, r, ii) == f_powi(x@[r], ii as i32) by { lemma_idx(r, ii, it.index@, n as int); assert(at2(pre_vm, n as int, r, ii) == at2(vm@, n as int, r, ii)); } '
                                          'assert forall|ii: int| 0 <= ii < i + 1 implies #[trigger] at2(vm@, n as int, it.index@, ii) == f_powi(x@[it.index@], ii as i32) by { if ii < i { assert(at2(pre_vm, n as int, it.index@, ii) == at2(vm@, n as int, it.index@, ii)); } }')}},
-                 hints=[('let mut vm = Vec::with_capacity(x.len() * n);', 'after', 'proof { assert(0 * n == 0) by(nonlinear_arith); }')])
+                 hints=[('let mut vm = Vec::with_capacity(', 'after', 'proof { assert(0 * n == 0) by(nonlinear_arith); }')])
 xtx = Fn(U + 'xtx', ret='r', level='L1', valid='(x@.len() as int) % (k as int) == 0',
          requires=['C14.xtx.machine:: k > 0 && x@.len() <= 0x7fff_ffff && ((x@.len() as int) / (k as int)) * ((x@.len() as int) / (k as int)) <= 0x7fff_ffff'],
          ensures=['C14.xtx.valid:: (x@.len() as int) % (k as int) == 0',
